@@ -3,6 +3,7 @@ from __future__ import annotations
 
 import copy
 import json
+import os
 
 from hypothesis import strategies as st
 
@@ -32,6 +33,12 @@ def setup():
   dsched.install(iter_utils)
 
 
+def setup_lines():
+  import ml_metrics  # pylint: disable=g-import-not-at-top
+  setup()
+  dsched.set_line_root(os.path.dirname(os.path.realpath(ml_metrics.__file__)) + os.sep)
+
+
 def setup_real():
   pass
 
@@ -56,7 +63,8 @@ def build_stages(case, records, names, shard=None):
   T = transform.TreeTransform
   chain = None
   for gi, (g, nm) in enumerate(zip(groups, names)):
-    t = T.new(name=nm, num_threads=case.get('num_threads', 0) if gi == 0 else 0)
+    stage_threads = case.get('stage_threads')
+    t = T.new(name=nm, num_threads=(stage_threads[gi] if stage_threads else case.get('num_threads', 0) if gi == 0 else 0))
     if gi == 0:
       recs = copy.deepcopy(records)
       if case.get('splits'):
@@ -86,13 +94,13 @@ def build_stages_plain(case, records):
 
 
 def baseline(case):
-  c = dict(case, cuts=[], num_threads=0)
+  c = dict(case, cuts=[], num_threads=0, stage_threads=None)
   it = build_stages(c, case['records'], ['P']).make().iterate()
   out = list(it)
   agg = norm_result(it.agg_result)
-  if case.get('mid_agg') and len(case.get('cuts', [])) >= 1 and case['strategy']['kind'] in ('stages', 'named', 'manual', 'shards', 'interleaved'):
+  if case.get('mid_agg') and len(case.get('cuts', [])) >= 1 and case['strategy']['kind'] in ('stages', 'named', 'manual', 'shards', 'interleaved', 'threads_chain'):
     # reference value of the extra aggregate of the first stage: over the records that reach the end of that stage
-    first = dict(case, prog={'ops': case['prog']['ops'][:case['cuts'][0]]}, cuts=[], num_threads=0, mid_agg=False)
+    first = dict(case, prog={'ops': case['prog']['ops'][:case['cuts'][0]]}, cuts=[], num_threads=0, mid_agg=False, stage_threads=None)
     recs = list(build_stages_plain(first, case['records']).make().iterate())
     agg['ms'], agg['mn'] = sum(int(r['c']) for r in recs), len(recs)
   return out, agg
@@ -125,6 +133,36 @@ def run_case(case):
       raise crash(e, what) from e
     got_out, got_agg = box['out'], box['agg']
     extra = {'scheduling_points': s.steps, 'preemptions': s.preemptions}
+  elif kind == 'threads_chain':
+    # named stages with their own thread counts, under the deterministic scheduler *with line-level preemption*: a thread
+    # can lose the processor between any two source lines of the library, so state shared by the worker threads of a stage
+    # (the upstream stage's iterator, its batch counter and aggregate state) must be protected by the library itself
+    n = len(case.get('cuts', [])) + 1
+    names = [f'S{i}' for i in range(n)]
+
+    def run_once(schedule):
+      box = {}
+
+      def main():
+        it = build_stages(case, records, names).make().iterate()
+        box['out'] = list(it)
+        box['agg'] = norm_result(it.agg_result)
+      _, s = dsched.run(main, schedule, max_steps=80000)
+      return box, s
+    try:
+      # calibration: the same schedule without line preemption tells how many library lines the run executes
+      _, s0 = run_once(dict(case['schedule'], count_lines=True))
+      total = max(s0.lines, 1)
+      targets_ = [[1 + int(f * (total - 1)), c] for f, c in case['line_fracs']]
+      box, s = run_once(dict(case['schedule'], line_preempt=targets_))
+    except dsched.Deadlock as e:
+      raise Violation('deadlock', f'{what}: {e}') from e
+    except dsched.StepBudget as e:
+      raise Inconclusive(str(e)) from e
+    except Exception as e:  # pylint: disable=broad-exception-caught
+      raise crash(e, what) from e
+    got_out, got_agg = box['out'], box['agg']
+    extra = {'scheduling_points': s.steps, 'preemptions': s.preemptions, 'library_lines': s.lines, 'line_preemptions': s.line_preemptions}
   elif kind in ('stages', 'fused', 'named'):
     n = len(case.get('cuts', [])) + 1
     names = [f'S{i}' for i in range(n)] if kind != 'fused' else ['F'] * n
@@ -212,7 +250,14 @@ def run_case(case):
         f'{what}: {kind} run emitted {sorted(map(_canon, got_out))}, sequential run {sorted(map(_canon, want_out))}')
   check(got_agg == want_agg, 'aggregate-depends-on-strategy', f'{what}: {kind} run aggregate {got_agg}, sequential run {want_agg}')
   size = strat_.get('n', strat_.get('k', len(case.get('cuts', [])) + 1))
-  return {'nontrivial': size >= 2 and len(records) >= 3, 'classes': [f'strategy-{kind}', f'size-{min(size, 4)}'], 'extra': extra}
+  classes = [f'strategy-{kind}', f'size-{min(size, 4)}']
+  if kind == 'threads_chain':
+    size = max(case['stage_threads'])
+    classes += [f'line-preemptions-{min(extra["line_preemptions"], 3)}',
+                'threaded-stage-after-aggregating-stage' if len(case['stage_threads']) >= 2 and case.get('mid_agg') and max(case['stage_threads'][1:]) >= 2
+                else 'other-chain']
+    return {'nontrivial': size >= 2 and len(records) >= 3 and extra['line_preemptions'] >= 1, 'classes': classes, 'extra': extra}
+  return {'nontrivial': size >= 2 and len(records) >= 3, 'classes': classes, 'extra': extra}
 
 
 def _base_case(draw):
@@ -245,6 +290,23 @@ def strat_sched(tier):
   return s()
 
 
+def strat_lines(tier):
+  @st.composite
+  def s(draw):
+    case = _base_case(draw)
+    if len(case['records']) > 40:
+      case['records'] = case['records'][:draw(st.integers(10, 40))]
+    n = len(case['cuts']) + 1
+    case['stage_threads'] = [draw(st.sampled_from([0, 0, 2, 3])) for _ in range(n)]
+    if max(case['stage_threads']) < 2:
+      case['stage_threads'][draw(st.integers(0, n - 1))] = draw(st.integers(2, 3))
+    case['strategy'] = {'kind': 'threads_chain'}
+    case['schedule'] = draw(schedule_strategy(max_choices=20))
+    case['line_fracs'] = draw(st.lists(st.tuples(st.floats(0, 1, allow_nan=False), st.integers(0, 3)), min_size=1, max_size=4))
+    return case
+  return s()
+
+
 def strat_structural(tier):
   @st.composite
   def s(draw):
@@ -272,6 +334,8 @@ def strat_interleaved(tier):
 
 SCENARIOS = [
     Scenario('threads', run_case, strategy=strat_sched, setup=setup, budget={'quick': 1500, 'thorough': 25000},
+             shards={'quick': 8, 'thorough': 16}),
+    Scenario('threads_line_preemption', run_case, strategy=strat_lines, setup=setup_lines, budget={'quick': 400, 'thorough': 8000},
              shards={'quick': 8, 'thorough': 16}),
     Scenario('stages_and_shards', run_case, strategy=strat_structural, setup=setup_real, budget={'quick': 1500, 'thorough': 25000},
              shards={'quick': 4, 'thorough': 16}),
